@@ -7,7 +7,7 @@ N_QUICK, N_THOROUGH = 2000, 80000
 RULE = ("d in 2..4, n in 0..30 rows drawn per axis from edge pools (every edge incl. the last, nextafter neighbours, "
         "mid-points, gap interiors, outside), 8% NaN cells; per-axis binnings Numpy(right-inclusive)/Fixed(not)/Static gapped "
         "with random includes_right_edge, asymmetric bin counts; given as binning objects, edge arrays, pair arrays, or method "
-        "name with per-axis argument lists (bins read back); weights none/int/dyadic; entry through h (row-wise), h2 / h3 "
+        "name with per-axis argument lists (bins read back); weights none/int/dyadic/units of both signs on one point; entry through h (row-wise), h2 / h3 "
         "(column lists); malformed: weights of wrong length, NaN with dropna=False. non-trivial = accepted, >=1 row in a cell "
         "and >=1 row missed or on an edge")
 MODELLED = ("extract_nd_array / extract_and_concat_arrays row mask, to_numpy_bins_with_mask, the +inf bin, numpy.histogramdd's "
@@ -68,6 +68,12 @@ def gen(rng, n, tier):
                     if not any((lo <= x < hi) for lo, hi in b) and not (incl == "T" and x == b[-1][1]): return True
                 return False
             weights = [(-w if outside(r) else w) for w, r in zip(weights, rows)]
+        if m >= 1 and rng.random() < 0.08:
+            # unit weights of both signs on the same point: +1, +1, -1 (the cell keeps 1, its squared error is 3)
+            k = rng.randrange(m)
+            rows = rows + [list(rows[k]), list(rows[k])]
+            base = [rng.choice([0, 1, 1]) for _ in range(m)]; base[k] = 1
+            weights = base + [1, -1]; wkind = "int"; m = len(rows)
         wlen_ok = "T"
         if weights != "none" and m > 1 and rng.random() < 0.04: weights = weights[:-1]; wlen_ok = "F"
         dropna = "T" if rng.random() < 0.9 else "F"
